@@ -35,9 +35,51 @@ CONTROLLER_OBSERVER_SLOTS = {"display", "res_func"}
 INTERNAL = ("pygradflow.eval.EvalError", "pygradflow.step.step_solver_error.StepSolverError", "pygradflow.linear_solver.linear_solver.LinearSolverError")
 
 
+DERIVED_OBSERVERS: Set[str] = set()
+
+
 def is_observer_func(fi: FuncInfo) -> bool:
     q = fi.qualname
+    if any(q == o or q.startswith(o + ".") for o in DERIVED_OBSERVERS):
+        return True
     return fi.module.name in OBSERVER_MODULES or any(q == o or q.startswith(o + ".") for o in OBSERVER_FUNCS)
+
+
+def derive_observers(prog: Program) -> None:
+    """A helper that did not exist on the pinned tree (extract-method) and whose every call site lies in observer code is
+    observer code itself - all observer rules (stores, raises, no feedback) then apply to its body."""
+    from ..inline import known_functions
+    known = known_functions()
+    DERIVED_OBSERVERS.clear()
+    new = [f for f in prog.functions.values() if f.qualname not in known and "<locals>" not in f.qualname and prog.in_scope(f)]
+    if not new:
+        return
+    sites: Dict[str, List[Tuple[FuncInfo, ast.Call]]] = {f.qualname: [] for f in new}
+    for fi in prog.iter_functions():
+        for c in own_nodes(fi.node):
+            if isinstance(c, ast.Call):
+                nm = c.func.attr if isinstance(c.func, ast.Attribute) else (c.func.id if isinstance(c.func, ast.Name) else None)
+                if nm is None or not any(q.rsplit(".", 1)[-1] == nm for q in sites):
+                    continue
+                for t in prog.resolve_call_target(fi, c):
+                    if isinstance(t, FuncInfo) and t.qualname in sites:
+                        sites[t.qualname].append((fi, c))
+    changed = True
+    while changed:
+        changed = False
+        for q, ss in sites.items():
+            if q in DERIVED_OBSERVERS or not ss:
+                continue
+            ok = True
+            for fi, c in ss:
+                if is_observer_func(fi):
+                    continue
+                s = facts_for(fi).stmt_of(c)
+                if s is None or not any(observer_fact(f) for f in s.facts):
+                    ok = False
+            if ok:
+                DERIVED_OBSERVERS.add(q)
+                changed = True
 
 
 def observer_fact(f) -> bool:
@@ -59,6 +101,9 @@ def run(prog: Program, rep, tier: str) -> None:
     # math-domain errors (math.pow / math.log / math.sqrt ...) are modelled as raise sites inside observer-only code: a
     # display-only computation must not be able to abort the solve through them either (exhibited: math.pow(0, -0.5) for an
     # empty reduced system under report_rcond, fixed in 9ba1357)
+    derive_observers(prog)
+    if DERIVED_OBSERVERS:
+        rep.note(f"helpers called from observer code only, treated as observer code: {sorted(DERIVED_OBSERVERS)}")
     x = ExcFlow(prog, partial_math=lambda f: is_observer_func(f))
     obs_funcs = [f for f in prog.iter_functions() if prog.in_scope(f) and is_observer_func(f)]
     rep.pin("observer-only functions", len(obs_funcs), 40)
@@ -118,7 +163,20 @@ def run(prog: Program, rep, tier: str) -> None:
                 algo_names_written.append((fi, s, n.id))
     rep.pin("stores in observer code", n_stores, 20)
     # names assigned under observer conditions are read only by observer code / result slots
-    for fi, s, name in algo_names_written:
+    def _alias_only(e: ast.AST) -> bool:
+        """e merely hands an observer value on: a name, None, or `<name> if <x> is [not] None else None`."""
+        if isinstance(e, ast.Name) or (isinstance(e, ast.Constant) and e.value is None):
+            return True
+        if isinstance(e, ast.IfExp) and isinstance(e.test, ast.Compare) and len(e.test.ops) == 1 and isinstance(e.test.ops[0], (ast.Is, ast.IsNot)) \
+                and isinstance(e.test.left, ast.Name) and isinstance(e.test.comparators[0], ast.Constant) and e.test.comparators[0].value is None:
+            return _alias_only(e.body) and _alias_only(e.orelse)
+        return False
+
+    seen_names = {(fi.qualname, name) for fi, _, name in algo_names_written}
+    k_ = 0
+    while k_ < len(algo_names_written):
+        fi, s, name = algo_names_written[k_]
+        k_ += 1
         ff = facts_for(fi)
         pm = parent_map(fi.node)
         uses = [m for m in own_nodes(fi.node) if isinstance(m, ast.Name) and m.id == name and isinstance(m.ctx, ast.Load)]
@@ -140,6 +198,13 @@ def run(prog: Program, rep, tier: str) -> None:
                 par = pm.get(id(par))
             if isinstance(us.stmt, ast.Return) and isinstance(us.stmt.value, ast.Tuple) and name == "rcond":
                 okuse = True  # (dx, dy, rcond) of solve_scaled
+            if not okuse and isinstance(us.stmt, ast.Assign) and len(us.stmt.targets) == 1 and isinstance(us.stmt.targets[0], ast.Name) and _alias_only(us.stmt.value):
+                # a temporary that merely carries the observer value on: it is held to the same rule
+                okuse = True
+                key = (fi.qualname, us.stmt.targets[0].id)
+                if key not in seen_names:
+                    seen_names.add(key)
+                    algo_names_written.append((fi, us, us.stmt.targets[0].id))
             if not okuse:
                 bad = (u_, us)
                 break
